@@ -1,0 +1,22 @@
+// Unless explicitly stated otherwise all files in this repository are licensed
+// under the Apache License Version 2.0.
+// This product includes software developed at Datadog (https://www.datadoghq.com/).
+// Copyright 2025-present Datadog, Inc.
+
+//go:build verif
+
+package publicip
+
+import "net/http"
+
+// NewPublicIPFetcherWithClient returns a PublicIPFetcher that uses the given HTTP client
+func NewPublicIPFetcherWithClient(client *http.Client) *PublicIPFetcher {
+	p := NewPublicIPFetcher()
+	p.client = client
+	return p
+}
+
+// VerifIPCheckers returns the provider list in the order it is consulted
+func VerifIPCheckers() []string {
+	return append([]string(nil), ipCheckers...)
+}
